@@ -229,3 +229,190 @@ def trimmed_cell_reorder(run):
                 raise CheckerError("TrimmedCell._run: no successful path")
             run.functions.append({"file": CF, "function": "TrimmedCell._run" + tag, "line": m.lineno, "sha1": mod.sha(m),
                                   "obligations": len(run.sink.obls) - n0})
+
+
+# ------------------------------------------------------------------ Smith-normal-form path: lattice points -> coset representatives
+def _adj3(f):
+    c = lambda a, b, c_, d: f[a] * f[d] - f[b] * f[c_]
+    return [c(4, 5, 7, 8), -c(1, 2, 7, 8), c(1, 2, 4, 5),
+            -c(3, 5, 6, 8), c(0, 2, 6, 8), -c(0, 2, 3, 5),
+            c(3, 4, 6, 7), -c(0, 1, 6, 7), c(0, 1, 3, 4)]
+
+
+def _det3(f):
+    return f[0] * (f[4] * f[8] - f[5] * f[7]) - f[1] * (f[3] * f[8] - f[5] * f[6]) + f[2] * (f[3] * f[7] - f[4] * f[6])
+
+
+def snf_lattice_points(run):
+    """Supercell._get_simple_supercell on the Smith-normal-form path (D = P S Q): for two generic lattice points l1, l2 of the
+    D-box and one generic unit-cell atom x, the scaled positions handed to PhonopyAtoms satisfy
+        P . S . (pos(l2) - pos(l1)) == det(P) . (l2 - l1)          (exact polynomial identity, 3 components)
+    i.e. with det P = 1 (contract of SNF3x3) pos(l2) - pos(l1) = S^-1 P^-1 (l2 - l1), and pos(l1) = S^-1 (P^-1 l1 + x).
+    Together with lemma `snf-coset` below this gives: two atoms of the simple supercell coincide modulo the supercell
+    lattice iff l1 == l2 modulo D, so the D-box enumerates every coset of Z^3 / S Z^3 exactly once."""
+    mod = pyexec.load(CF)
+    m = mod.method("Supercell", "_get_simple_supercell")
+    pref = CF + ":Supercell._get_simple_supercell[SNF lattice points]"
+    st = PState()
+    Sm, Pm = mat3(st, "S", z3.Int), mat3(st, "P", z3.Int)
+    Sv, Pv = list(vals(st, Sm)), list(vals(st, Pm))
+    L = mat3(st, "L")
+    l1 = [z3.Int("l1_%d" % i) for i in range(3)]
+    l2 = [z3.Int("l2_%d" % i) for i in range(3)]
+    x = [z3.Real("x_%d" % i) for i in range(3)]
+    pos = st.new(NDArr((1, 3), x))
+    captured = {}
+
+    def atoms_hook(ex, st_, args, kwargs):
+        captured.setdefault("calls", []).append((dict(kwargs), st_))
+        return st_.new(Record("PhonopyAtoms", dict(kwargs)))
+
+    def inv_hook(ex, st_, args, kwargs):
+        a = args[0]
+        if isinstance(a, Ref) and a.id == Pm.id:
+            # inverse of the integer matrix P with det P == 1 (on the path: contract of SNF3x3) is its adjugate
+            return st_.new(NDArr((3, 3), _adj3(Pv), "int"))
+        f = [pyexec.num(v) for v in st_.heap[a.id].flat]
+        f = [z3.ToReal(v) if v.sort() == z3.IntSort() else v for v in f]
+        d = _det3(f)
+        return st_.new(NDArr((3, 3), [v / d for v in _adj3(f)]))
+
+    def rint_hook(ex, st_, args, kwargs):
+        a = args[0]
+        if isinstance(a, Ref) and all(z3.is_expr(v) and v.sort() == z3.IntSort() for v in st_.heap[a.id].flat):
+            return a        # rint of integers
+        raise CheckerError("np.rint on a non-integer matrix in _get_simple_supercell (contract needs maintenance)")
+
+    def tile_hook(ex, st_, args, kwargs):
+        a = st_.heap[args[0].id]
+        if tuple(pyexec.concrete_int(v) for v in args[1]) != (1, 1):
+            raise CheckerError("np.tile: expected (n, 1) with n == 1 generic atom")
+        return st_.new(a.clone())
+
+    def repeat_hook(ex, st_, args, kwargs):
+        if isinstance(args[0], Opaque):
+            return Opaque("repeat(" + args[0].why + ")")
+        a = st_.heap[args[0].id]
+        k = pyexec.concrete_int(args[1])
+        if a.shape != (1, 3) or pyexec.concrete_int(kwargs.get("axis")) != 0:
+            raise CheckerError("np.repeat: expected positions (1, 3), axis=0")
+        return st_.new(NDArr((k, 3), list(a.flat) * k))
+    hooks = {"new:PhonopyAtoms": atoms_hook, "numpy.linalg.inv": inv_hook, "numpy.rint": rint_hook, "numpy.tile": tile_hook,
+             "numpy.repeat": repeat_hook, "numpy.meshgrid": lambda ex, st_, a, k: (Opaque("b"), Opaque("c"), Opaque("a")),
+             "numpy.c_": lambda ex, st_, a, k: st_.new(NDArr((2, 3), l1 + l2, "int"))}
+    ex = PyExec(mod, run.sink, pref, hooks=hooks, opaque_unknown=True, split=True)
+    ex.assert_as_assume = True
+    st.pc += [_det3(Sv) != 0, _det3(Pv) == 1]
+    ucell = st.new(Record("PhonopyAtoms", {"cell": L, "scaled_positions": pos, "symbols": Opaque("symbols"),
+                                           "masses": None, "magnetic_moments": None}))
+    self_ref = st.new(Record("Supercell", {"_is_old_style": False, "_supercell_matrix": Sm}))
+    multi = tuple(z3.Int("D_%d" % i) for i in range(3))
+    n0 = len(run.sink.obls)
+    outs = ex.call_function(st, m, [ucell, multi, Pm], self_ref=self_ref, cls="Supercell")
+    if not captured.get("calls"):
+        raise CheckerError("_get_simple_supercell never constructs PhonopyAtoms")
+    kw, s2 = captured["calls"][-1]
+    sp = kw.get("scaled_positions")
+    if not (isinstance(sp, Ref) and isinstance(s2.heap[sp.id], NDArr) and s2.heap[sp.id].shape == (2, 3)):
+        raise CheckerError("_get_simple_supercell: scaled positions were abstracted (%r)" % (sp,))
+    p = [pyexec.num(v) for v in s2.heap[sp.id].flat]
+    Sr = [z3.ToReal(v) for v in Sv]
+    Pr = [z3.ToReal(v) for v in Pv]
+    detP = _det3(Pr)
+    hyps = list(s2.pc)
+
+    def mv(M, v):
+        return [sum(M[i * 3 + k] * v[k] for k in range(3)) for i in range(3)]
+    dpos = [p[3 + i] - p[i] for i in range(3)]
+    lhs = mv(Pr, mv(Sr, dpos))
+    for i in range(3):
+        ob = run.sink.add(pref, "post", hyps, lhs[i] == detP * z3.ToReal(l2[i] - l1[i]),
+                          meta={"label": "P S (pos(l2) - pos(l1)) == det(P) (l2 - l1), component %d" % i})
+        ob.backend = "poly"
+        ob.replay = replay_snf
+    lhs1 = mv(Pr, [a - b for a, b in zip(mv(Sr, p[:3]), x)])      # P (S pos(l1) - x) == det(P) l1
+    for i in range(3):
+        ob = run.sink.add(pref, "post", hyps, lhs1[i] == detP * z3.ToReal(l1[i]),
+                          meta={"label": "P (S pos(l1) - x) == det(P) l1, component %d" % i})
+        ob.backend = "poly"
+        ob.replay = replay_snf
+    run.functions.append({"file": CF, "function": "Supercell._get_simple_supercell[SNF lattice points]", "line": m.lineno,
+                          "sha1": mod.sha(m), "obligations": len(run.sink.obls) - n0})
+    run.abstracted += sorted(set(ex.abstracted))[:20]
+
+    # lemma snf-coset (pure algebra, exact identities with explicit cofactors): with D = P S Q, P Pi = I, Q Qi = I (integer
+    # inverses exist because det P = det Q = 1) and d = l2 - l1:
+    #   (a) S z = Pi d  (z integer: the two atoms coincide)  =>  D (Qi z) = d        (so d is 0 modulo D)
+    #   (b) d = D w     (w integer)                          =>  S (Q w) = Pi d      (so the atoms coincide)
+    names = {}
+
+    def M(nm):
+        names[nm] = [z3.Real("%s_%d%d" % (nm, i, j)) for i in range(3) for j in range(3)]
+        return names[nm]
+
+    def mm(A, B):
+        return [sum(A[i * 3 + k] * B[k * 3 + j] for k in range(3)) for i in range(3) for j in range(3)]
+    I3 = [z3.RealVal(1) if i == j else z3.RealVal(0) for i in range(3) for j in range(3)]
+    P_, S_, Q_, Pi, Qi = M("P"), M("S"), M("Q"), M("Pi"), M("Qi")
+    D_ = mm(mm(P_, S_), Q_)
+    z = [z3.Real("z_%d" % i) for i in range(3)]
+    d = [z3.Real("d_%d" % i) for i in range(3)]
+    w = [z3.Real("w_%d" % i) for i in range(3)]
+    sub = lambda A, B: [a - b for a, b in zip(A, B)]
+    # (a)  D Qi z - d  ==  P S (Q Qi - I) z + P (S z - Pi d) + (P Pi - I) d
+    la = sub(mv(D_, mv(Qi, z)), d)
+    ra = [a + b + c for a, b, c in zip(mv(mm(P_, S_), mv(sub(mm(Q_, Qi), I3), z)), mv(P_, sub(mv(S_, z), mv(Pi, d))), mv(sub(mm(P_, Pi), I3), d))]
+    # (b)  S Q w - Pi D w  ==  (I - Pi P) S Q w
+    lb = sub(mv(S_, mv(Q_, w)), mv(Pi, mv(D_, w)))
+    rb = mv(sub(I3, mm(Pi, P_)), mv(S_, mv(Q_, w)))
+    for tag, l_, r_ in (("(a) coincide => equal modulo D", la, ra), ("(b) equal modulo D => coincide", lb, rb)):
+        for i in range(3):
+            ob = run.sink.add("lemma:C04:snf-coset", "lemma", [], l_[i] == r_[i],
+                              meta={"label": "cofactor identity %s, component %d: the residual is a combination of the hypotheses' residuals" % (tag, i)})
+            ob.backend = "poly"
+
+
+def replay_snf(model):
+    """real get_supercell on the SNF path: all atoms distinct modulo the supercell lattice and the atom count is N |det S|"""
+    import json
+    from pvc import creplay
+    code = r'''
+import json, itertools
+import numpy as np
+from phonopy.structure.atoms import PhonopyAtoms
+from phonopy.structure.cells import get_supercell
+L = np.array([[3.0, 0.1, 0.2], [0.3, 4.0, 0.1], [0.2, 0.1, 5.0]])
+u = PhonopyAtoms(symbols=['H', 'He'], cell=L, scaled_positions=[[0.1, 0.2, 0.3], [0.6, 0.7, 0.45]])
+rng = np.random.default_rng(11)
+bad = None; tried = 0
+while tried < 60:
+    S = rng.integers(-3, 4, size=(3, 3))
+    dt = int(round(np.linalg.det(S)))
+    if dt < 2 or dt > 40 or (np.diag(np.diagonal(S)) == S).all():
+        continue
+    tried += 1
+    try:
+        sc = get_supercell(u, S, is_old_style=False)
+    except Exception as e:
+        bad = {"S": S.tolist(), "error": repr(e)[:200]}; break
+    p = sc.scaled_positions
+    ok = len(p) == 2 * dt
+    if ok:
+        dd = p[:, None, :] - p[None, :, :]; dd -= np.rint(dd)
+        close = (np.abs(dd).max(axis=2) < 1e-6).sum()
+        ok = close == len(p)
+        # every atom sits on a unit-cell site: S p - x integer
+        r0 = (S @ p.T).T
+        site = np.minimum(np.abs((r0 - u.scaled_positions[0]) - np.rint(r0 - u.scaled_positions[0])).max(axis=1),
+                          np.abs((r0 - u.scaled_positions[1]) - np.rint(r0 - u.scaled_positions[1])).max(axis=1))
+        ok = ok and site.max() < 1e-6
+    if not ok:
+        bad = {"S": S.tolist(), "natom": int(len(p)), "expected_natom": 2 * dt}; break
+print(json.dumps({"failing": bad, "matrices_tried": tried}))
+'''
+    rc, out, err = creplay.py_eval(code)
+    if rc != 0:
+        return {"reproduced": False, "reason": err[-400:]}
+    r = json.loads(out.strip().splitlines()[-1])
+    return {"reproduced": r["failing"] is not None, "input": r["failing"], "real_code": r,
+            "expected": "N |det S| atoms, pairwise distinct modulo the supercell lattice, each on a unit-cell site"}
